@@ -33,6 +33,7 @@ def _hist_c14(line):
     keys = ["alpha=" + f.get("alpha", "?"), "le=" + f.get("le", "?"), "fnl=" + f.get("fnl", "?"),
             "vv=" + ("yes" if f.get("vv", "-") != "-" else "no"),
             "layout=" + ("canonical" if f.get("lay") == "canon" else "varied"),
+            "roundtrip-theorem-hypothesis(wf_file)=" + ("yes" if f.get("wf") == "1" else "no"),
             "records<=%d" % (1 if n <= 1 else 5 if n <= 5 else 40 if n <= 40 else 120 if n <= 120 else 300)]
     return keys
 
@@ -72,7 +73,9 @@ _TRUSTED = [
     "Coq 8.16.1 kernel (coqc); vm_compute only in Example lemmas; no native_compute",
     "extraction: ExtrOcamlBasic only (nat, N, Z, positive, byte stay extracted inductives); OCaml 4.13.1",
     "hand-written OCaml driver ocaml/transfac/driver.ml (line parsing, chunk construction, calls of the extracted "
-    "checkers check_c14/check_c15 and of the extracted reader+parser model, messages)",
+    "checkers check_c14/check_c15 -- proved sound and complete in CheckProofs.v -- and of the extracted reader+parser "
+    "model, messages); PROPFAIL is decided by the extracted checkers only (plus, for C14, textual equality of the "
+    "outcome sequences of the 9 chunkings and the record count of the bundled files)",
     "Rust harness harness/src/bin/transfac.rs (file generators and mutators, canonical printer print_canon compared "
     "byte for byte with TransfacPrint.print_file, custom chunked BufRead, catch_unwind + watchdog thread)",
     "modelled, not verified: transfac/{reader,parse,mod}.rs and error.rs as Gallina functions on byte lists; "
@@ -107,17 +110,25 @@ C14_SPEC = dict(
          "BufReader capacities 1,2,3,5,17,64,8192,1048576 and a custom BufRead with a cyclic random chunk-size pattern. "
          "Checked: the outcome sequence (id, accession, name, description, every cell as f32 bits, references, "
          "to_counts) equals the written records then END (extracted check_c14), is the same for all 9 chunkings, and "
-         "equals the extracted reader+parser model run on one chunk, on the random chunking and on 1-byte chunks. "
-         "Non-trivial: distinct files with >= 2 records or a matrix of >= 2 rows.",
+         "equals the extracted reader+parser model run on one chunk, on the random chunking and on 1-byte chunks; "
+         "canonical cases carry wf=1 and the driver confirms with the extracted wf_file that they lie inside the "
+         "hypothesis of C14.reader_roundtrip. Non-trivial: distinct files with >= 2 records or a matrix of >= 2 rows.",
     trusted_base=_TRUSTED,
     assumptions=[
-        "TRANSFAC round trip is proved for the canonical layout only (TransfacPrint.print_file, counts of the form "
-        "digits[.digits], any row labels accepted by nom's u32, fields = any one-line valid UTF-8 text that trim() leaves "
-        "unchanged); the other accepted layouts are covered by the correspondence check only",
-        "a file starting with the letters VV is read as having a version header: its first record (up to the first "
-        "'//' line) is dropped by Reader::new (documented behaviour, the printer always closes the header with '//')",
-        "Rust's f32::from_str accepts every token of nom's float grammar (checked on every generated token: a rejected "
-        "token would surface as a parse error against the model)",
+        "TRANSFAC: reader_roundtrip (all record lists meeting the boolean wf_file, all chunkings) is proved for the "
+        "canonical layout written by TransfacPrint.print_file: optional VV header, per record AC/ID/NA/DE lines (each "
+        "followed by XX) and a P0 block (symbols in any order / any subset without repetition, one row per position, "
+        "XX), '//' line, LF or CRLF, last '//' with or without line ending; counts = any token that nom's float parser "
+        "accepts entirely (digits, fraction, exponent, sign, nan, inf), row labels = anything nom's u32 accepts, field "
+        "values = any one-line valid UTF-8 text that trim() leaves unchanged. The other layouts the reader accepts "
+        "(field order, PO spelling, blanks/tabs, consensus column, RN/RX/RA/RT/RL, BF/BA/BS/CC/CO/DT lines) are "
+        "covered by the correspondence check (model = implementation, implementation = written records) only",
+        "TRANSFAC: the theorems speak of count *tokens* (the matrix cell holds the token written under that symbol); "
+        "the token -> f32 conversion is outside the theorem: Dec2F32.f32_of_token (exact, Flocq) is compared bit for "
+        "bit with the cell the implementation produced (Rust str::parse::<f32> via nom) on every evaluated token",
+        "TRANSFAC: a file starting with the letters VV is read as having a version header: everything up to the "
+        "first '//' line is dropped by Reader::new (behaviour of the code, modelled as is; the printer closes the "
+        "header with XX and '//')",
     ],
 )
 
@@ -146,7 +157,13 @@ C15_SPEC = dict(
          "extracted reader+parser model. Non-trivial: distinct non-empty inputs.",
     trusted_base=_TRUSTED,
     assumptions=[
-        "the underlying BufRead returns no I/O error other than through read_line's UTF-8 validation (in-memory "
-        "streams); an I/O error is returned by the code as Err and is not a panic site",
+        "TRANSFAC: the underlying BufRead returns no I/O error other than through read_line's UTF-8 validation "
+        "(in-memory streams); an I/O error is returned by the code as Err and is not a panic site",
+        "TRANSFAC: reader_total is a theorem about the Gallina model (reader.rs, parse.rs, error.rs, the nom "
+        "combinators and std's read_line as modelled in Nom.v / Stream.v); panic sites of the model = the slice "
+        "`buffer[last..]` (bounds, char boundary) and `unreachable!()` on nom::Err::Incomplete; allocation failure, "
+        "stack overflow and panics inside nom/std themselves are not modelled (nom's float parser and f32::from_str "
+        "are total); Record::to_counts / to_freq are called by the harness under catch_unwind but are not part of "
+        "the theorem",
     ],
 )
